@@ -128,6 +128,11 @@ def gen_history(rng, kind, size, aim):
             ops.append("%s%d@%d" % (rng.choice(["fe", "fa", "fc", "fc"] if aim != "alive" else ["fa", "fc", "fe"]),
                                     rng.choice(live_c), any_t()))
             continue
+        if kind == "S" and rng.chance(1, 2):
+            # ConcurrentSummer << Summary{sum, num}: each half zero separately (sum-only / num-only), both, neither, negative
+            sm, nm = rng.choice([(42, 0), (-5, 0), (1 << 40, 0), (0, 1), (0, 3), (0, 0), (7, 2), (-9, 1), (3, -1), (-(1 << 40), 5)])
+            ops.append("b%d,%d,%d@%d" % (rng.choice(live_c), sm, nm, any_t()))
+            continue
         ops.append("a%d,%d@%d" % (rng.choice(live_c), rng.choice(vals), any_t()))
     for c in live_c:
         ops.append("r%d@%d" % (c, any_t()))
@@ -165,6 +170,14 @@ def targeted(kind):
         out.append(["sp0", "n0@0", "a0,%d@0" % ext, "r0@0"])                       # former sentinel witness (fixed 37f7c2a)
         out.append(["sp0", "sp1", "n0@0", "r0@0", "a0,5@0", "a0,-7@1", "r0@0", "z0@0", "r0@1", "a0,-9@1", "r0@0", "ex1", "r0@0",
                     "sp2", "a0,-20@2", "r0@2", "z0@2", "a0,-3@2", "r0@0", "d0@0", "n1@2", "r1@2", "a1,2@2", "r1@0"])
+    if kind == "S":
+        # every shape of the Summary overload on live threads, exited threads and recycled slots / instances
+        out.append(["sp0", "n0@0", "b0,42,0@0", "r0@0"])                                   # lone sum-only contribution
+        out.append(["sp0", "sp1", "n0@0", "a0,10@0", "b0,-5,0@1", "r0@0", "ex1", "r0@0",   # sum-only from another thread, which exits
+                    "sp2", "r0@2", "b0,0,4@2", "r0@0", "a0,1@2", "r0@2", "ex2", "r0@0"])     # its slot reused: num-only, then a sample
+        out.append(["sp0", "sp1", "sp2", "n0@0", "n1@0", "b0,7,0@1", "b1,0,3@2", "b0,0,0@0", "r0@0", "r1@0", "ex1", "ex2", "r0@0", "r1@0",
+                    "d0@0", "n2@0", "r2@0", "b2,-3,0@0", "r2@0", "sp3", "b2,3,0@3", "r2@3", "b2,5,-1@3", "b2,0,1@0", "r2@0",
+                    "d1@0", "d2@0", "n3@3", "r3@3", "b3,1099511627776,0@3", "ex3", "r3@0"])
     if kind == "E":
         # address reuse: destroyed and re-created at the same address, threads keep a cache entry for the old one
         out.append(["sp0", "sp1", "n0@0", "a0,5@0", "a0,7@1", "d0@0", "n0@0", "r0@0", "a0,1@1", "a0,2@0", "r0@1", "fe0@0",
